@@ -4,4 +4,4 @@ go 1.22
 
 require github.com/yuin/goldmark v0.0.0
 
-replace github.com/yuin/goldmark => /var/tmp/seed_repo
+replace github.com/yuin/goldmark => /repo
